@@ -146,7 +146,7 @@ func weekEnd() (time.Weekday, error) {
 			debugPrintf("%v: could not create telemetry.LocalDir %s", err, telemetry.Default.LocalDir())
 			return 0, err
 		}
-		if err = os.WriteFile(weekends, []byte(day), 0666); err != nil {
+		if err = createWeekends(weekends, day); err != nil {
 			return 0, err
 		}
 	}
@@ -169,6 +169,34 @@ func weekEnd() (time.Weekday, error) {
 		weekend += 7
 	}
 	return weekend, nil
+}
+
+// createWeekends creates the weekends file with the given content, unless
+// another process creates it first.
+//
+// The content is written to a temporary file that is then linked into place:
+// the file appears complete or not at all, so that processes starting at the
+// same time agree on one day (the first link wins) and a process that dies
+// half-way does not leave an empty file behind, which would keep every later
+// process from counting.
+func createWeekends(weekends, day string) error {
+	tmp, err := os.CreateTemp(filepath.Dir(weekends), "weekends.tmp")
+	if err != nil {
+		return os.WriteFile(weekends, []byte(day), 0666)
+	}
+	defer os.Remove(tmp.Name())
+	_, werr := tmp.WriteString(day)
+	if cerr := tmp.Close(); werr == nil {
+		werr = cerr
+	}
+	if werr != nil {
+		return werr
+	}
+	if err := os.Link(tmp.Name(), weekends); err != nil && !os.IsExist(err) {
+		// No hard links here: fall back to writing the file in place.
+		return os.WriteFile(weekends, []byte(day), 0666)
+	}
+	return nil
 }
 
 // rotate checks to see whether the file f needs to be rotated,
